@@ -7,9 +7,31 @@
 // one created by the code under test's own synchronisation. Consequences for
 // this package: state shared between goroutines is only touched inside
 // //go:norace functions and is never a Go map.
+//
+// A task may also block inside the code under test (waiting for something
+// another, parked, task will do: a single-flight load, a condition variable).
+// The scheduler cannot see that wait; it notices that the released task neither
+// parks nor finishes within BlockedAfter, marks it blocked and releases another
+// parked task. When the blocked task wakes up it runs until its next park
+// point, concurrently with whatever task is released at that moment: in such
+// runs the "one at a time" rule is relaxed for that stretch, and a run in
+// which every remaining task is blocked is reported as a deadlock.
 package sched
 
-import "sync"
+import (
+	"runtime"
+	"sync"
+	"time"
+)
+
+type state int
+
+const (
+	stParked state = iota
+	stOut
+	stBlocked
+	stDone
+)
 
 type task struct {
 	id     int
@@ -17,24 +39,32 @@ type task struct {
 	done   bool
 	fn     func()
 	panicV any
+	gid    uint64
+	st     state // scheduler-side only
 }
 
 // Sched runs tasks one at a time.
 type Sched struct {
-	tasks   []*task
-	notify  chan int
-	running int
+	tasks  []*task
+	notify chan int
 	// Pick chooses among n parked tasks (0 <= result < n).
 	Pick func(n int) int
 	// Trace is the sequence of task ids released, one per scheduling step.
 	Trace []int
 	// Steps is the global step counter (simulated time for C17).
 	Steps int
-	wg    sync.WaitGroup
+	// BlockedAfter is how long a released task may stay silent before it is
+	// considered blocked inside the code under test.
+	BlockedAfter time.Duration
+	// BlockedEvents counts how often a task was found blocked in the library.
+	BlockedEvents int
+	// Deadlocked is set when every unfinished task ended up blocked.
+	Deadlocked bool
+	wg         sync.WaitGroup
 }
 
 func New(pick func(n int) int) *Sched {
-	return &Sched{notify: make(chan int), Pick: pick, running: -1}
+	return &Sched{notify: make(chan int, 64), Pick: pick, BlockedAfter: 250 * time.Millisecond}
 }
 
 // Go registers a task. Must be called before Run.
@@ -44,13 +74,42 @@ func (s *Sched) Go(fn func()) int {
 	return t.id
 }
 
-//go:norace
-func (s *Sched) setRunning(id int) { s.running = id }
+func curGID() uint64 {
+	var buf [64]byte
+	n := runtime.Stack(buf[:], false)
+	var id uint64
+	for _, c := range buf[len("goroutine "):n] {
+		if c < '0' || c > '9' {
+			break
+		}
+		id = id*10 + uint64(c-'0')
+	}
+	return id
+}
 
-// Running returns the id of the task currently released (valid inside a task).
+//go:norace
+func (t *task) setGID(g uint64) { t.gid = g }
+
+//go:norace
+func (s *Sched) taskOfGID(g uint64) *task {
+	for _, t := range s.tasks {
+		if t.gid == g {
+			return t
+		}
+	}
+	return nil
+}
+
+// Running returns the id of the calling task, or -1 when the caller is not a
+// task goroutine.
 //
 //go:norace
-func (s *Sched) Running() int { return s.running }
+func (s *Sched) Running() int {
+	if t := s.taskOfGID(curGID()); t != nil {
+		return t.id
+	}
+	return -1
+}
 
 //go:norace
 func (t *task) setDone(v any) { t.done = true; t.panicV = v }
@@ -79,18 +138,34 @@ func (s *Sched) taskFinish(t *task) {
 }
 
 //go:norace
-func (s *Sched) release(t *task) {
+func (s *Sched) resumeTask(t *task) {
 	raceDisable()
 	t.resume <- struct{}{}
-	<-s.notify
 	raceEnable()
 }
 
+// recvNotify waits for one notification; ok is false on timeout.
+//
 //go:norace
-func (s *Sched) awaitInitial() {
+func (s *Sched) recvNotify(d time.Duration) (id int, ok bool) {
 	raceDisable()
-	<-s.notify
-	raceEnable()
+	defer raceEnable()
+	if d <= 0 {
+		select {
+		case id = <-s.notify:
+			return id, true
+		default:
+			return 0, false
+		}
+	}
+	tm := time.NewTimer(d)
+	defer tm.Stop()
+	select {
+	case id = <-s.notify:
+		return id, true
+	case <-tm.C:
+		return 0, false
+	}
 }
 
 // Yield is a park point: the calling task stops until the scheduler releases
@@ -98,11 +173,53 @@ func (s *Sched) awaitInitial() {
 //
 //go:norace
 func (s *Sched) Yield() {
-	id := s.running
-	if id < 0 || id >= len(s.tasks) {
-		return
+	if t := s.taskOfGID(curGID()); t != nil {
+		s.taskPark(t)
 	}
-	s.taskPark(s.tasks[id])
+}
+
+func (s *Sched) noted(id int) {
+	t := s.tasks[id]
+	if t.isDone() {
+		t.st = stDone
+	} else {
+		t.st = stParked
+	}
+}
+
+// settle waits until no task is "out": each one has parked, finished, or been
+// silent for BlockedAfter (then it is blocked in the library).
+func (s *Sched) settle() {
+	for {
+		out := 0
+		for _, t := range s.tasks {
+			if t.st == stOut {
+				out++
+			}
+		}
+		if out == 0 {
+			break
+		}
+		id, ok := s.recvNotify(s.BlockedAfter)
+		if !ok {
+			for _, t := range s.tasks {
+				if t.st == stOut {
+					t.st = stBlocked
+					s.BlockedEvents++
+				}
+			}
+			break
+		}
+		s.noted(id)
+	}
+	// tasks that were blocked may have been woken by what just ran
+	for {
+		id, ok := s.recvNotify(0)
+		if !ok {
+			break
+		}
+		s.noted(id)
+	}
 }
 
 // Run starts every task (each parks immediately), then releases one parked
@@ -111,9 +228,11 @@ func (s *Sched) Yield() {
 func (s *Sched) Run() []any {
 	for _, t := range s.tasks {
 		t := t
+		t.st = stOut
 		s.wg.Add(1)
 		go func() {
 			defer s.wg.Done() // the one real barrier, after everything
+			t.setGID(curGID())
 			s.taskPark(t)
 			func() {
 				defer func() {
@@ -124,29 +243,53 @@ func (s *Sched) Run() []any {
 			}()
 			s.taskFinish(t)
 		}()
-		s.awaitInitial()
+		s.settle()
 	}
-	live := make([]*task, len(s.tasks))
-	copy(live, s.tasks)
-	for len(live) > 0 {
+	for {
+		var parked []*task
+		live, blocked := 0, 0
+		for _, t := range s.tasks {
+			switch t.st {
+			case stParked:
+				parked = append(parked, t)
+				live++
+			case stBlocked:
+				blocked++
+				live++
+			case stOut:
+				live++
+			}
+		}
+		if live == 0 {
+			break
+		}
+		if len(parked) == 0 {
+			// only blocked tasks remain: give them one more period to wake up
+			// on their own, then call it a deadlock
+			if id, ok := s.recvNotify(s.BlockedAfter); ok {
+				s.noted(id)
+				continue
+			}
+			s.Deadlocked = true
+			break
+		}
 		i := 0
-		if len(live) > 1 {
-			i = s.Pick(len(live))
-			if i < 0 || i >= len(live) {
+		if len(parked) > 1 {
+			i = s.Pick(len(parked))
+			if i < 0 || i >= len(parked) {
 				i = 0
 			}
 		}
-		t := live[i]
+		t := parked[i]
 		s.Trace = append(s.Trace, t.id)
 		s.Steps++
-		s.setRunning(t.id)
-		s.release(t)
-		if t.isDone() {
-			live = append(live[:i], live[i+1:]...)
-		}
+		t.st = stOut
+		s.resumeTask(t)
+		s.settle()
 	}
-	s.setRunning(-1)
-	s.wg.Wait()
+	if !s.Deadlocked {
+		s.wg.Wait()
+	}
 	out := make([]any, len(s.tasks))
 	for i, t := range s.tasks {
 		out[i] = t.panicValue()
